@@ -22,7 +22,8 @@ Record idpcfg := {
   max_clock_skew  : Z;         (* package variable MaxClockSkew *)
   sig_method      : string;    (* idp.SignatureMethod *)
   idp_key         : Z;         (* idp.Key   (identifier of the key pair) *)
-  idp_signer      : option Z   (* idp.Signer (takes precedence when set) *)
+  idp_signer      : option Z;  (* idp.Signer (takes precedence when set) *)
+  idp_signer_ecdsa : bool      (* the Signer's public key is an ECDSA key (idp.Key is always RSA: the key store asserts it) *)
 }.
 
 (* ------------------------------------------------------------------------- *)
@@ -380,16 +381,29 @@ Definition rsa_sha256 := "http://www.w3.org/2001/04/xmldsig-more#rsa-sha256".
 Definition rsa_sha384 := "http://www.w3.org/2001/04/xmldsig-more#rsa-sha384".
 Definition rsa_sha512 := "http://www.w3.org/2001/04/xmldsig-more#rsa-sha512".
 Definition rsa_methods := [rsa_sha1; rsa_sha256; rsa_sha384; rsa_sha512].
+Definition ecdsa_sha1   := "http://www.w3.org/2001/04/xmldsig-more#ecdsa-sha1".
+Definition ecdsa_sha256 := "http://www.w3.org/2001/04/xmldsig-more#ecdsa-sha256".
+Definition ecdsa_sha384 := "http://www.w3.org/2001/04/xmldsig-more#ecdsa-sha384".
+Definition ecdsa_sha512 := "http://www.w3.org/2001/04/xmldsig-more#ecdsa-sha512".
+Definition ecdsa_methods := [ecdsa_sha1; ecdsa_sha256; ecdsa_sha384; ecdsa_sha512].
+Definition all_methods := (rsa_methods ++ ecdsa_methods)%list.
 
 Definition effective_method (cfg : idpcfg) : string :=
   if nonempty (sig_method cfg) then sig_method cfg else rsa_sha1.
 Definition signer_key (cfg : idpcfg) : Z :=
   match idp_signer cfg with Some k => k | None => idp_key cfg end.
 
-(* signingContext(): the key is an RSA key, so SetSignatureMethod accepts
-   exactly the four RSA methods *)
+(* signingContext(): SetSignatureMethod accepts exactly the methods of the
+   signing key's algorithm — RSA for idp.Key (through the TLS key store) and for
+   an RSA crypto.Signer (a *rsa.PrivateKey or an opaque wrapper), ECDSA for an
+   ECDSA crypto.Signer *)
+Definition allowed_methods (cfg : idpcfg) : list string :=
+  match idp_signer cfg with
+  | Some _ => if idp_signer_ecdsa cfg then ecdsa_methods else rsa_methods
+  | None => rsa_methods
+  end.
 Definition signing_context (cfg : idpcfg) : outcome (Z * string) :=
-  if mem_str (effective_method cfg) rsa_methods then Ok (signer_key cfg, effective_method cfg) else Err 20.
+  if mem_str (effective_method cfg) (allowed_methods cfg) then Ok (signer_key cfg, effective_method cfg) else Err 20.
 
 Definition sign {A} (ctx : Z * string) (id : string) (content : A) : sigrec A :=
   {| sg_signer := fst ctx; sg_method := snd ctx; sg_ref := "#" +++ id; sg_over := content |}.
@@ -739,12 +753,12 @@ Definition signed_b (cfg : idpcfg) (resp : response) : bool :=
   && seqb (sg_ref sr) ("#" +++ rs_id (rs_body resp)) && respbody_eqb (sg_over sr) (rs_body resp)
   && (sg_signer sa =? signer_key cfg) && seqb (sg_method sa) (effective_method cfg)
   && seqb (sg_ref sa) ("#" +++ a_id a) && assertion_eqb (sg_over sa) a
-  && mem_str (effective_method cfg) rsa_methods.
+  && mem_str (effective_method cfg) (allowed_methods cfg).
 
 Definition c06_spec (c : c06case) : bool :=
   match c6_obs c with
   | O6Panic => false
-  | O6Err => true
+  | O6Err => negb (is_ok (c06_model c))   (* nothing emitted although a (signed) response is due *)
   | O6Form action resp relay =>
       match c06_route c with
       | None => false
@@ -853,7 +867,7 @@ Record spcfg := {
 
 Definition sig_valid {A} (eq : A -> A -> bool) (key : Z) (sg : sigrec A) (content : A) (id : string) : bool :=
   (sg_signer sg =? key) && seqb (sg_ref sg) ("#" +++ id) && eq (sg_over sg) content
-  && mem_str (sg_method sg) rsa_methods.
+  && mem_str (sg_method sg) all_methods.
 
 (* validateAssertion *)
 Definition sp_validate_assertion (sp : spcfg) (delay skew now : Z) (ids : list string) (a : assertion) : outcome assertion :=
@@ -1085,3 +1099,19 @@ Definition c08s_spec (c : c08scase) : bool :=
          end
      end.
 Definition check_c08s := check_cases c08s_agree c08s_spec.
+
+(* ---- C06 on the step API: a POST form is written only to HTTP-POST endpoints,
+   whichever of MakeAssertionEl / MakeResponse the caller ran before WriteResponse ---- *)
+Fixpoint posts_only_to_post (binding : string) (steps results : list Z) : bool :=
+  match steps, results with
+  | s :: sr, r :: rr =>
+      (negb ((s =? 2) && (r =? 0)) || seqb binding post_binding) && posts_only_to_post binding sr rr
+  | _, _ => true
+  end.
+Definition c06s_spec (c : c08scase) : bool :=
+  forallb (fun z => negb (z =? 2)) (s8_results c)
+  && match c06_route (s8_base c) with
+     | Some (_, _, _, e) => posts_only_to_post (ep_binding e) (s8_steps c) (s8_results c)
+     | None => true
+     end.
+Definition check_c06s := check_cases c08s_agree c06s_spec.
